@@ -304,7 +304,25 @@ func (x *Exec) applyContract(fr *Frame, st *State, c *Contract, sig *types.Signa
 	}
 	env.old, env.oldTop = pre, preTop
 	x.bindResults(env, c, sig, rets)
+	var keep []string
+	restrict := false
+	if x.c != nil && x.c.Opaque != nil {
+		if k, ok := x.c.Opaque[c.Name]; ok {
+			keep, restrict = k, true
+		}
+	}
 	for _, en := range c.Ensures {
+		if restrict {
+			found := false
+			for _, l := range keep {
+				if l == en.Label {
+					found = true
+				}
+			}
+			if !found {
+				continue
+			}
+		}
 		st.assume(x.evalClause(env, c, "ensures "+en.Label, en.Expr))
 	}
 	return rets
